@@ -260,6 +260,11 @@ func (m *c19Model) expectFill(x, y, w, h uint32, fg, bg uint8) c19FillInfo {
 		fi.y1, fi.clipped = g.rows, true
 	}
 	fi.paletteOK = int(bg) < len(m.palette) && (!g.text || int(fg) < len(m.palette))
+	if g.cols == 0 || g.rows == 0 {
+		// a grid without cells: there is no cell that could change
+		fi.empty, fi.clipped = true, false
+		return fi
+	}
 	if fi.x1 < fi.x0 || fi.y1 < fi.y0 {
 		fi.empty = true
 		return fi
